@@ -196,6 +196,7 @@ def initial_state(ex, spec, fnode):
             return vbool(fresh("p_" + n, B))
         t = fresh("p_" + n)
         st.assume(t < c0)
+        st.olds.add(t.get_id())
         return V("ref", t, hint)
 
     for n in names:
